@@ -148,11 +148,29 @@ where
     }
 
     fn collect_item_keys(&self) -> HashMap<ast::ItemKey, ast::ResolvedItemKind> {
-        self.lalrpop_results
-            .values()
-            .flat_map(|fr| &fr.ast)
-            .map(|f| (f.get_key(), f.item.get_kind()))
-            .collect()
+        // Note: if several files define the same key, keep the kind with the lowest rank so
+        // that the result does not depend on the iteration order of the map
+        fn rank(kind: &ast::ResolvedItemKind) -> u8 {
+            match kind {
+                ast::ResolvedItemKind::Interface => 0,
+                ast::ResolvedItemKind::Parcelable => 1,
+                ast::ResolvedItemKind::Enum => 2,
+                ast::ResolvedItemKind::ForwardDeclaredParcelable => 3,
+                ast::ResolvedItemKind::UnknownImport => 4,
+            }
+        }
+
+        let mut keys: HashMap<ast::ItemKey, ast::ResolvedItemKind> = HashMap::new();
+        for f in self.lalrpop_results.values().flat_map(|fr| &fr.ast) {
+            let kind = f.item.get_kind();
+            match keys.get(&f.get_key()) {
+                Some(previous) if rank(previous) <= rank(&kind) => (),
+                _ => {
+                    keys.insert(f.get_key(), kind);
+                }
+            }
+        }
+        keys
     }
 }
 
